@@ -153,6 +153,23 @@ pub fn rec_optval(args: &Args) {
         let w = *r.pick(&[1u64, 2, 4, 8]);
         out.ev(json!({"op": "uint_dec", "w": w, "in": jbytes(&b), "out": uint_res(w, &b)}));
     }
+    // lengths at which a length kept in a narrower integer would wrap (256, 512, 65536 plus 0..width):
+    // far too long for any width, whatever the bytes are
+    for base in [255usize, 256, 512, 65536] {
+        for extra in [0usize, 1, 2, 4, 8, 9] {
+            for lead_zero in [false, true] {
+                let mut b = r.bytes(base + extra);
+                if lead_zero {
+                    for k in 0..base {
+                        b[k] = 0;
+                    }
+                }
+                for w in [1u64, 2, 4, 8] {
+                    out.ev(json!({"op": "uint_dec", "w": w, "in": jbytes(&b), "out": uint_res(w, &b)}));
+                }
+            }
+        }
+    }
     // strings: random Unicode, and byte-level damage
     for _ in 0..n {
         let len = r.below(12);
